@@ -1,4 +1,5 @@
 """C07 — YAML in UTF-16/UTF-32 (plus the shared clause R02.1 of C02 and R17.6 of C17)."""
+import re
 import itertools
 import json
 import os
@@ -139,7 +140,7 @@ def r02_1(ctx):
         # exempt only text that provably comes from a chunker document (already re-encoded);
         # anything else is treated as derived from the whole input
         ctr = strace(sup, n, t["args"][0], extra=("::content", "Document::"))
-        chunk_fed = bool(ctr.origin and ctr.origin[0] == "call" and (fn_of(ctr.origin[2]) or {}).get("trait") == "std::iter::Iterator" and "Chunker" in (fn_of(ctr.origin[2]) or {}).get("self_ty", ""))
+        chunk_fed = bool(ctr.origin and ctr.origin[0] == "call" and common.is_chunker_next(ctx.facts, fn_of(ctr.origin[2])))
         whole = not chunk_fed
         if not whole:
             ctx.ob(f"site:{sup.body_of(n).name}:chunk-fed", True, sup.site(n), "parser fed by a chunker document (already re-encoded): exempt", trivial=True)
@@ -183,8 +184,8 @@ def _ref_table():
     return json.load(open(os.path.join(VERIF, "tables", "yaml_5_2.json")))
 
 
-def _match_row(pat, bs):
-    if len(bs) < len(pat):
+def _match_row(pat, bs, exact=False):
+    if len(bs) < len(pat) or (exact and len(bs) != len(pat)):
         return False
     for p, b in zip(pat, bs):
         if p is not None and p != b:
@@ -193,26 +194,42 @@ def _match_row(pat, bs):
 
 
 def _eval_rows(rows, default, bs):
-    for pat, enc in rows:
-        if _match_row(pat, bs):
-            return enc
+    for row in rows:
+        if _match_row(row[0], bs, row[2] if len(row) > 2 else False):
+            return row[1]
     return default
 
 
 def _code_rows(lib, d, canon):
-    """Ordered rows ([byte|None,...], canonical encoding) from the detector's HIR tables."""
+    """Ordered rows ([byte|None,...], canonical encoding, exact_length) from the detector's HIR match
+    tables, plus the fall-through encoding and the arities of fixed-size (array) windows.
+
+    Array scrutinee `[u8; N]` (obtained from `get(0..N)`): a row applies to every input of at least N bytes.
+    Slice scrutinee `[u8]`: `[a, b, ..]` applies to every input of at least 2 bytes, `[a, b]` only to
+    inputs of exactly 2 bytes; `_ => Variant` is a catch-all row."""
     tabs = [t for t in lib.tables_of(d.id) if t["form"] == "match"]
     tabs.sort(key=lambda t: (t["span"]["line"], t["span"]["col"]))
     rows = []
+    arities = set()
     for t in tabs:
+        is_array = bool(re.match(r"\[u8; \d+\]$", t.get("scrutinee_ty", "")))
+        is_slice = t.get("scrutinee_ty", "") in ("[u8]", "&[u8]")
+        if not (is_array or is_slice):
+            raise AnchorLost(f"encoding detector matches on {t.get('scrutinee_ty')!r} (expected [u8; N] or [u8])")
         for arm in t["arms"]:
             res = tables.body_result(arm.get("body", {}))
             pats = arm["pat"]["alts"] if arm["pat"]["k"] == "or" else [arm["pat"]]
             for p in pats:
                 if p["k"] == "wild":
+                    if res[0] == "path" and tables.short(res[1]) in canon:
+                        if arm.get("guard"):
+                            raise AnchorLost("guarded arm in the encoding detector")
+                        rows.append(([], canon[tables.short(res[1])], False))
                     continue
-                if p["k"] != "slice" or p.get("mid") or p["after"]:
+                if p["k"] != "slice" or p["after"]:
                     raise AnchorLost(f"unrecognised pattern form in the encoding detector: {p['k']}")
+                if p.get("mid") and p["mid"].get("k") != "wild":
+                    raise AnchorLost("binding rest pattern in the encoding detector")
                 row = []
                 for e in p["before"]:
                     if e["k"] == "wild":
@@ -225,12 +242,14 @@ def _code_rows(lib, d, canon):
                     raise AnchorLost("detector arm does not return an encoding variant")
                 if arm.get("guard"):
                     raise AnchorLost("guarded arm in the encoding detector")
-                rows.append((row, canon[tables.short(res[1])]))
+                if is_array:
+                    arities.add(len(row))
+                rows.append((row, canon[tables.short(res[1])], is_slice and not p.get("mid")))
     tail = [t for t in lib.raw["hir"]["tails"] if t["owner"] == d.id]
     default = None
     if tail and tail[0]["tail"].get("k") == "path":
         default = canon.get(tables.short(tail[0]["tail"]["res"]))
-    return rows, default
+    return rows, default, sorted(arities, reverse=True)
 
 
 @rule("R07.2", 17, "encoding detection table == YAML 1.2.2 section 5.2 (as first-match decision tables over all byte-class prefixes); constructor and endianness tables consistent", ["C07"])
@@ -244,12 +263,12 @@ def r07_2(ctx):
     ctx.ob("five-encodings", set(canon.values()) == want and len(canon) == 5, site(ctor), f"canonical encodings {sorted(canon.values())}")
     for (mth, vn), e in sorted(endian.items()):
         ctx.ob(f"endianness:{mth.rsplit('::', 1)[-1]}:{vn}", (vn.lower().startswith("big") and e == "be") or (vn.lower().startswith("little") and e == "le") or vn.lower() not in ("big", "little"), mth, f"{vn} -> from_{e}_bytes (u{widths[mth]})")
-    rows, default = _code_rows(lib, d, canon)
+    rows, default, arities = _code_rows(lib, d, canon)
     ref = _ref_table()
     ref_rows = [([None if x is None else int(x, 16) for x in r["bytes"]], r["encoding"]) for r in ref["rows"]]
-    ctx.ob("default-is-utf8", default == ref["default"], site(d), f"fall-through encoding: {default}")
-    # prefix windows examined: get(0..N) ranges in MIR must start at 0 and match the pattern arity
-    arities = sorted({len(r) for r, _ in rows}, reverse=True)
+    empty = _eval_rows(rows, default, ())
+    ctx.ob("default-is-utf8", empty == ref["default"], site(d), f"encoding of an empty / unmatched prefix: {empty}")
+    # fixed-size prefix windows: get(0..N) ranges in MIR must start at 0 and match the pattern arity
     ranges = []
     for bi, blk in enumerate(d.blocks):
         for s in blk["stmts"]:
@@ -278,7 +297,7 @@ def r07_2(ctx):
         ctx.ob("row:" + " ".join("xx" if x is None else "%02X" % x for x in r), a == enc, site(d), f"spec: {enc}; code: {a}")
 
 
-@rule("R07.3", 4, "no fabricated characters: every from_u32_unchecked argument is proven a Unicode scalar value (interval analysis); other chars come from checked conversions", ["C07", "C17"])
+@rule("R07.3", 3, "no fabricated characters: every from_u32_unchecked argument is proven a Unicode scalar value (interval analysis); other chars come from checked conversions", ["C07", "C17"])
 def r07_3(ctx):
     lib = ctx.lib
     n = 0
@@ -302,14 +321,15 @@ def r07_3(ctx):
                     ctx.ob(f"transmute-to-char:{b.name}", False, site(b, line=s["line"]), "char produced by transmute")
     # every Ok(char) comes from a proven unchecked conversion or the checked char::from_u32
     seen_keys = {}
+    dec_files = {b.file for b in lib.bodies if any((fn_of(t) or {}).get("name") in ("from_u32_unchecked", "from_u32") for _, t in b.calls())}
     for b in lib.bodies:
-        if "std::result::Result<char, std::io::Error>" not in b.local_ty(0):
+        if b.file not in dec_files or "char" not in b.local_ty(0):
             continue
         for bi, blk in enumerate(b.blocks):
             if bi not in b.reach():
                 continue
             for s in blk["stmts"]:
-                if s["k"] == "assign" and s["rv"]["k"] == "aggregate" and s["rv"].get("variant") == "Ok" and s["rv"].get("adt") == "std::result::Result":
+                if s["k"] == "assign" and s["rv"]["k"] == "aggregate" and s["rv"].get("variant") in ("Ok", "Some") and s["rv"].get("adt") in ("std::result::Result", "std::option::Option"):
                     op = s["rv"]["ops"][0]
                     if not is_place(op) or b.local_ty(op["p"]["l"]) != "char":
                         continue
@@ -418,6 +438,55 @@ def _nth(d, k):
     return d[k] - 1
 
 
+def _start_guards(b):
+    """Switches on the stream's start flag (a bool field of self), read directly or through `!flag`.
+    Returns [(switch_bb, not_started_edge, started_edge, field, adt)], edges as (src, label, dst)."""
+    out = []
+    for gb in sorted(b.reach()):
+        t = b.blocks[gb]["term"]
+        if t["k"] != "switch" or t.get("discr_ty") != "bool" or not is_place(t["discr"]):
+            continue
+        zero = [x for v, x in t["targets"] if v == 0]
+        if not zero:
+            continue
+        # peel copies and at most one negation
+        cur = t["discr"]
+        negated = False
+        tr = None
+        for _ in range(6):
+            tr = trace(b, cur)
+            if tr.origin and tr.origin[0] == "arg":
+                break
+            # find a single `x = Not(y)` definition at the end of the copy chain
+            l = cur["p"]["l"]
+            hops = 0
+            found = False
+            while hops < 6:
+                ds = b.whole_defs(l)
+                if len(ds) != 1 or ds[0][2] != "assign":
+                    break
+                rv = ds[0][3]["rv"]
+                if rv["k"] == "use" and is_place(rv["op"]) and not rv["op"]["p"]["pr"]:
+                    l = rv["op"]["p"]["l"]
+                    hops += 1
+                    continue
+                if rv["k"] == "unop" and rv["op"] == "Not" and is_place(rv["a"]):
+                    negated = not negated
+                    cur = rv["a"]
+                    found = True
+                break
+            if not found:
+                break
+        if not (tr and tr.origin and tr.origin[0] == "arg" and tr.origin[1] == 1 and tr.has("field")):
+            continue
+        fstep = [s_ for s_ in tr.steps if s_[0] == "field"][0]
+        e_zero = (gb, 0, zero[0])
+        e_other = (gb, "otherwise", t["otherwise"])
+        not_started, started = (e_other, e_zero) if negated else (e_zero, e_other)
+        out.append((gb, not_started, started, fstep[1], fstep[2]))
+    return out
+
+
 @rule("R07.4", 3, "a byte order mark is stripped once and only at the start of the stream", ["C07"])
 def r07_4(ctx):
     lib = ctx.lib
@@ -426,45 +495,52 @@ def r07_4(ctx):
         for bi in sorted(b.reach()):
             t = b.blocks[bi]["term"]
             if t["k"] == "switch" and any(v == 0xFEFF for v, _ in t["targets"]) and t.get("discr_ty") == "char":
-                sites.append((b, bi, "switch"))
+                tgt = [x for v, x in t["targets"] if v == 0xFEFF][0]
+                sites.append((b, bi, (bi, 0xFEFF, tgt), t["discr"]))
             for s in b.blocks[bi]["stmts"]:
                 if s["k"] == "assign" and s["rv"]["k"] == "binop" and s["rv"]["op"] in ("Eq", "Ne"):
-                    for o in (s["rv"]["a"], s["rv"]["b"]):
-                        if o.get("k") == "const" and o.get("v") == 0xFEFF and o.get("ty") == "char":
-                            sites.append((b, bi, "eq"))
+                    for o, other in ((s["rv"]["a"], s["rv"]["b"]), (s["rv"]["b"], s["rv"]["a"])):
+                        if o.get("k") == "const" and o.get("v") == 0xFEFF and o.get("ty") == "char" and t["k"] == "switch":
+                            zero = [x for v, x in t["targets"] if v == 0]
+                            if s["rv"]["op"] == "Eq":
+                                sites.append((b, bi, (bi, "otherwise", t["otherwise"]), other))
+                            elif zero:
+                                sites.append((b, bi, (bi, 0, zero[0]), other))
     ctx.ob("bom-compare-sites", len(sites) == 1, "lib", f"{len(sites)} comparison(s) with U+FEFF")
-    for b, bi, kind in sites:
-        # guard: switch on a bool field of self whose clear edge dominates the comparison
-        found = False
-        for gb in sorted(b.reach()):
-            t = b.blocks[gb]["term"]
-            if t["k"] != "switch" or t.get("discr_ty") != "bool":
-                continue
-            tr = trace(b, t["discr"])
-            if not (tr.origin and tr.origin[0] == "arg" and tr.origin[1] == 1 and tr.has("field")):
-                continue
-            fld = [s[1] for s in tr.steps if s[0] == "field"][0]
-            zero = [x for v, x in t["targets"] if v == 0]
-            if not zero or not b.edge_dominates(gb, 0, zero[0], bi):
-                continue
-            found = True
-            ctx.ob("bom:only-before-start", True, site(b, bi), f"U+FEFF is compared only while `{fld}` is still false")
-            setters = []
-            for bj, blk in enumerate(b.blocks):
-                for s in blk["stmts"]:
-                    if s["k"] == "assign" and s["p"]["pr"] and s["p"]["pr"][-1]["k"] == "field" and s["p"]["pr"][-1]["name"] == fld and s["rv"]["k"] == "use" and s["rv"]["op"].get("v") is True:
-                        setters.append(bj)
-            armed = bi not in b.reachable_from(zero[0], removed_nodes=setters) or zero[0] in setters
-            ctx.ob("bom:flag-set-first", armed, site(b, gb), f"`{fld} = true` precedes the comparison" if armed else f"`{fld}` is not set before the comparison: every U+FEFF would be dropped")
-            clears = []
-            for b2 in lib.bodies:
-                for blk in b2.blocks:
-                    for s in blk["stmts"]:
-                        if s["k"] == "assign" and s["p"]["pr"] and s["p"]["pr"][-1]["k"] == "field" and s["p"]["pr"][-1]["name"] == fld and s["p"]["pr"][-1].get("adt") == [st[2] for st in tr.steps if st[0] == "field"][0] and s["rv"]["k"] == "use" and s["rv"]["op"].get("v") is False:
-                            clears.append(b2.id)
-            ctx.ob("bom:flag-never-cleared", not clears, site(b), "the start flag is never reset" if not clears else f"`{fld}` is reset in {clears}")
+    for b, bi, match_edge, compared in sites:
+        # the pull that produced the compared character, and further pulls of the same source after a match
+        tr = trace(b, compared)
+        pull = tr.origin[2] if tr.origin and tr.origin[0] == "call" else None
+        pdef = (fn_of(pull) or {}).get("full") if pull else None
+        after = b.reachable_from(match_edge[2])
+        skips = [(bb, t) for bb, t in b.calls() if bb in after and t is not pull and pdef and (fn_of(t) or {}).get("full") == pdef]
+        ctx.ob("bom:dropped-by-pulling-next", bool(skips), site(b, bi), f"after a U+FEFF match the source is pulled again at {len(skips)} site(s)" if skips else "no second pull of the source follows the U+FEFF match (BOM handling not recognised)")
+        guards = _start_guards(b)
+        found = None
+        for gb, not_started, started, fld, adt in guards:
+            if skips and all(b.edge_dominates(not_started[0], not_started[1], not_started[2], sb) for sb, _ in skips):
+                found = (gb, not_started, started, fld, adt)
         if not found:
             ctx.ob("bom:only-before-start", False, site(b, bi), "U+FEFF is compared (and dropped) without a start-of-stream guard: ZERO WIDTH NO-BREAK SPACE inside the text would be deleted")
+            continue
+        gb, not_started, started, fld, adt = found
+        ctx.ob("bom:only-before-start", True, site(b, bi), f"a matched U+FEFF is skipped only while `{fld}` is still false")
+        setters = []
+        for bj, blk in enumerate(b.blocks):
+            for s in blk["stmts"]:
+                if s["k"] == "assign" and s["p"]["pr"] and s["p"]["pr"][-1]["k"] == "field" and s["p"]["pr"][-1]["name"] == fld and s["rv"]["k"] == "use" and s["rv"]["op"].get("v") is True:
+                    setters.append(bj)
+        # every way through the function sets the flag or has seen it set already
+        r = b.reachable_from(0, removed_nodes=setters, removed_edges=[started])
+        armed = bool(setters) and 0 not in setters and not any(x in r for x in b.return_blocks()) or (bool(setters) and 0 in setters)
+        ctx.ob("bom:flag-set-first", armed, site(b, gb), f"`{fld} = true` happens on every path that saw it false" if armed else f"`{fld}` is not set on some path: a later U+FEFF would be dropped too")
+        clears = []
+        for b2 in lib.bodies:
+            for blk in b2.blocks:
+                for s in blk["stmts"]:
+                    if s["k"] == "assign" and s["p"]["pr"] and s["p"]["pr"][-1]["k"] == "field" and s["p"]["pr"][-1]["name"] == fld and s["p"]["pr"][-1].get("adt") == adt and s["rv"]["k"] == "use" and s["rv"]["op"].get("v") is False:
+                        clears.append(b2.id)
+        ctx.ob("bom:flag-never-cleared", not clears, site(b), "the start flag is never reset" if not clears else f"`{fld}` is reset in {clears}")
 
 
 @rule("R07.6", 2, "the encoding detector always sees the first 4 bytes (or the whole input if shorter): whole slice, prefix(N>=4), or a buffer filled by copying from take(N>=4)", ["C07", "C02"])
